@@ -2,7 +2,7 @@
 """Regenerates /verif/MANIFEST.json from the table below (kept in one place so it stays valid)."""
 import json, subprocess
 
-HOOK_COMMITS = ["0f60b35"]
+HOOK_COMMITS = ["0f60b35", "ccf42cc"]
 
 CHECKS = {
  "C01": dict(engine="seqx", cat="model_checking", ref="DESIGN.md §2 C01, §1.5 E1",
